@@ -31,6 +31,24 @@ def produce(seed, tier, shard, nshards):
     out = sys.stdout
     out.write(json.dumps({'opmap': dis.opmap, 'version': '%d.%d' % V}) + '\n')
     n = 0
+    # programs only some producers can write (positional-only parameters from 3.8, `match` and instructions without a
+    # line in 3.10, opcodes that exist in one version only): every consumer has to load what they produce
+    # (seeded change C15-r3: a consumer-side feature check in a dataclass constructor)
+    FEATURES = [("def f(a, /, b):\n    return a\n", 0), ("def f(a, b=1, /, c=2, *d, e, **g):\n    'doc'\n    return a\nh = lambda x, /: x\n", 0),
+                ("def f(x):\n    match x:\n        case [a, b]:\n            return a\n        case {'k': v}:\n            return v\n    return None\n", 0),
+                ("def f(x):\n    try:\n        return x\n    finally:\n        x = 1\nfor i in y:\n    if i: continue\n    try:\n        break\n    finally:\n        z = 1\n", 0),
+                ("if (n := len(a)) > 1:\n    print(f'{n=}')\n", 0), ("async def f(x):\n    async with x as y, x as z:\n        return [i async for i in y]\n", 0),
+                ("def f():\n    with a as b, c as d:\n        return b\n    x = {**p, 'k': 1}; y = [*q, 2]; z = (*q,)\n", 2)]
+    if w.shard == 0:
+        for k, (src, opt) in enumerate(FEATURES):
+            try:
+                c = compile(src, '<feature-%d>' % k, 'exec', dont_inherit=True, optimize=opt)
+            except SyntaxError:
+                continue
+            d, e = try_(CodeData.from_code, c)
+            if e is not None:
+                continue
+            out.write(json.dumps({'label': 'feature-%d' % k, 'opt': opt, 'doc': d.to_json_data(), 'norm': d.normalize().to_json_data()}) + '\n')
     for inp, c in props.programs(w, want=('fixed', 'special', 'gen')):
         d, e = try_(CodeData.from_code, c)
         if e is not None:
